@@ -165,9 +165,17 @@ THEOREM Step == IndInv /\ [Next]_vars => IndInv'
 <1> QED
   BY <1>1, <1>2, <1>3, <1>4, <1>5, <1>6, <1>7, <1>8, <1>9, <1>10 DEF Next
 
-THEOREM Safety == Spec => []NoUseAfterFree
+\* a snapshot is released at most once per life: at the moment of the free it is not free already,
+\* and it is not the current one (only a writer step ever frees: W_Free is the only action changing
+\* `freed` by adding to it)
+NoDoubleFree == wpc = "free" => (wold \notin freed /\ wold # ptr)
+
+THEOREM InvFreeOnce == IndInv => NoDoubleFree
+  BY DEF IndInv, Heap, NoDoubleFree, InBarrier, Waiting
+
+THEOREM Safety == Spec => [](NoUseAfterFree /\ NoDoubleFree)
 <1>1. Spec => []IndInv
   BY InitInv, Step, PTL DEF Spec
 <1> QED
-  BY <1>1, InvSafe, PTL
+  BY <1>1, InvSafe, InvFreeOnce, PTL
 =============================================================================
